@@ -115,6 +115,7 @@ static void check_point(GridCtx & gc, const std::string & name, int level, int m
     // an accepted request always yields events satisfying C03/C04
     std::vector<double> dict = dict_for(c); double qmax = qmax_for(c); bxdecay0::event ev;
     Cfg ceff = c; if (c.win && !capable) ceff.win = false;
+    g_shot_limit = DEV_LIMIT; if (c.win) { double ta = gr.g->get_to_all_events(); if (ta > 1.0) g_shot_limit = (size_t)(DEV_LIMIT * std::min(ta, 500.0)); }
     for (int k = 0; k < gc.shots; k++) {
       Tape tape; tape.seed = mix(gr.itape.seed, 100 + k); tape.prof = profile_for(splitmix64(tape.seed), false); tape.dict = &dict;
       size_t used = 0; std::string save = cx.prop; cx.prop = "C03"; Res r = shoot_and_check(cx, ceff, *gr.g, tape, used, ev, qmax); cx.prop = save;
